@@ -1,10 +1,10 @@
 \* bounded indication queue (max_ind_queue_size = 1) and a tester that may hold the callback:
-\* all histories of 4 requests over the plain queue alphabet (5); the tester scripts that force the
+\* all histories of 4 requests over the queue alphabet with a request that makes the server wait (4); the tester scripts that force the
 \* queue.Full branch are printed for the harness
 SPECIFICATION Spec
 CONSTANTS
   MaxReq = 4
-  Alphabet <- QueuePlain
+  Alphabet <- QueueWait
   San = TRUE
   ClChk = TRUE
   Threaded = TRUE
